@@ -59,8 +59,16 @@ def fnum(x):
 
 
 def observe(b, err, rate):
-    return dict(err=err, rate=fnum(rate) if err is None else 0,
-                charge=fnum(b._current_charge), power=fnum(b._current_charging_power))
+    """non-finite observables (nan/inf, e.g. after a division by a zero voltage in numpy arithmetic) cannot be
+    rationals: they are recorded as the pseudo-exception "NonFinite" with the offending fields zeroed, which no
+    model outcome matches"""
+    vals = dict(rate=fnum(rate) if err is None else 0, charge=fnum(b._current_charge), power=fnum(b._current_charging_power))
+    bad = [k for k, v in vals.items() if isinstance(v, float) and not math.isfinite(v)]
+    if bad:
+        err = "NonFinite(%s)" % ",".join("%s=%r" % (k, vals[k]) for k in bad)
+        for k in bad:
+            vals[k] = 0
+    return dict(err=err, **vals)
 
 
 def apply_op(b, op):
